@@ -609,6 +609,32 @@ Theorem c07_slices c s :
   slices (map fst (items (run c s))) s /\ Forall first_is_preamble (map fst (items (run c s))).
 Proof. destruct (run_interp c s) as (-> & _ & Hc). now apply interp_slices. Qed.
 
+(* each delivered raw begins with a complete UBX, NMEA or RTCM3 preamble (two bytes) *)
+Lemma interp_protocols c (l : list (tev * bytes)) e :
+  Forall (fun x => frame_ev nmea_hdr (fst x)) l ->
+  Forall (fun it => let p := protocol nmea_hdr (fst it) in p = 1 \/ p = 2 \/ p = 4) (items (interp parse c l e)).
+Proof.
+  induction 1 as [|[t s'] l Ht Hl IH]; cbn [Reader.interp]; [destruct e; constructor|].
+  cbn [fst] in Ht. destruct t as [p raw| |x]; cbn [Reader.outcome_of].
+  - destruct Ht as [Hp Hpr]. destruct (passes c p); [|exact IH].
+    assert (Hd: forall v, Forall (fun it => let p0 := protocol nmea_hdr (fst it) in p0 = 1 \/ p0 = 2 \/ p0 = 4)
+                                 (items (add_item (raw, v) (interp parse c l e)))).
+    { intros v. cbn [add_item items]. constructor; [cbn [fst]; rewrite Hpr; exact Hp|exact IH]. }
+    destruct (parsing c); [|apply Hd].
+    destruct (parse p raw) as [v|x]; [apply Hd|].
+    destruct (classify_cases (P:=P) x) as [-> | [-> | ->]]; cbn [on_outcome];
+      repeat (match goal with |- context [if ?b then _ else _] => destruct b end);
+      cbn [stop add_report items]; try constructor; exact IH.
+  - exact IH.
+  - destruct (classify_cases (P:=P) x) as [-> | [-> | ->]]; cbn [on_outcome];
+      repeat (match goal with |- context [if ?b then _ else _] => destruct b end);
+      cbn [stop add_report items]; try constructor; exact IH.
+Qed.
+
+Theorem c07_preambles c s :
+  Forall (fun it => let p := protocol nmea_hdr (fst it) in p = 1 \/ p = 2 \/ p = 4) (items (run c s)).
+Proof. destruct (run_interp c s) as (-> & Hf & _). now apply interp_protocols. Qed.
+
 Lemma interp_quiet_end c (l : list (tev * bytes)) :
   ppo -> quiet_cfg c -> Forall (fun x => frame_ev nmea_hdr (fst x)) l ->
   raised (interp parse c l (TEof [])) = None /\ final (interp parse c l (TEof [])) = [].
